@@ -1,7 +1,7 @@
 /- Line-protocol driver for the ref-update transition system (C08).
 
    c08.run <variant> <order> <heads> <nrefs> <init> <actors> <schedule>
-     variant   coded | repaired | v:<rmLooseFirst>:<packLooseFirst>:<addChecksName>:<commitReads>
+     variant   coded | repaired | v:<rmLooseFirst>:<packLooseFirst>:<addChecksName>:<commitReads>[:<packRecheck>]
      order     0,1,2            iteration order of a Python set of ref names
      heads     1,2              refs living in refs/heads
      nrefs     3                refs 0..nrefs-1 are printed in the final state
@@ -70,6 +70,9 @@ def variant? (s : String) : Option Variant :=
     | ["v", a, b, c, d] => do
         some { rmLooseFirst := ← bool? a, packRemovesLooseFirst := ← bool? b, addChecksName := ← bool? c,
                commitReads := ← nat? d }
+    | ["v", a, b, c, d, e] => do
+        some { rmLooseFirst := ← bool? a, packRemovesLooseFirst := ← bool? b, addChecksName := ← bool? c,
+               commitReads := ← nat? d, packRecheck := ← bool? e }
     | _ => none
 
 structure Init where
